@@ -64,7 +64,7 @@ def _txt(draw, tier):
                 precision=draw(st.sampled_from([17, 8, 0, 3, 20, 16, 1, 12, 18, 5])),
                 default_precision=draw(st.sampled_from([False, False, True])),
                 comment=draw(st.sampled_from(COMMENTS)), comment_lines=[list(c) for c in comments],
-                ignore_empty=draw(st.booleans()), edges=edges,
+                ignore_empty=draw(st.booleans()), edges=edges, preexisting=draw(st.booleans()),
                 e0=draw(st.integers(-100, 100)) / 4.0, e1=draw(st.integers(101, 300)) / 4.0)
 
 
@@ -189,6 +189,9 @@ def _run_txt(case, ctx, pyspike, path):
     sts = [pyspike.SpikeTrain(np.array(t, dtype=float), [case["e0"], case["e1"]])
            for t in trains]
     before = [s.spikes.tobytes() for s in sts]
+    if case.get("preexisting"):
+        # the file already exists and holds something else: saving replaces it
+        pyspike.save_spike_trains_to_txt([pyspike.SpikeTrain([1.0, 2.0, 3.0], [0, 4])] * 3, path)
     if case["default_precision"]:
         p = 8
         ctx.call("save", pyspike.save_spike_trains_to_txt, sts, path, separator=case["sep"])
